@@ -12,7 +12,7 @@ use vkit::util::Args;
 
 /// "valided": valid for the host, under a second, tiny Ed25519 root (its DER encoding is shorter than 256 bytes)
 /// "validfull": valid for the host, under a third root whose PEM form consists of full 64-character lines only
-pub const LEAVES: [&str; 8] = ["valid", "wronghost", "expired", "selfsigned", "unknownca", "valided", "justexpired", "validfull"];
+pub const LEAVES: [&str; 9] = ["valid", "wronghost", "expired", "selfsigned", "unknownca", "valided", "justexpired", "validfull", "validip"];
 pub const ROOTS: [&str; 9] = ["none", "pem", "der", "unrelated", "edpem", "edder", "pemcrlf", "pemtext", "fullpem"];
 pub const IGNORE: [Option<bool>; 3] = [None, Some(false), Some(true)];
 
@@ -95,8 +95,8 @@ pub fn run(args: &Args, tier: &str, seed: u64, backend: &str) -> Report {
                                         if o.starts_with(&format!("{base_cell}/https")) { scheme = "https"; } else if o.starts_with(&format!("{base_cell}/ipps")) { scheme = "ipps"; }
                                     }
                                 }
-                                // target host: the name the "valid" leaves are issued for, or the IP literal they also carry as an iPAddress SAN (the wrong-host
-                                // leaf matches neither); one spelling per cell, chosen by another bit of the cell hash and the seed (a recorded cell names its own)
+                                // target host: the name the "valid" leaves are issued for (dNSName only), or the IP literal the `validip` leaf is issued for
+                                // (iPAddress only; the wrong-host leaf matches neither); one spelling per cell, chosen by another bit of the cell hash and the seed (a recorded cell names its own)
                                 let mut host: &str = if ((vkit::rng::hash64(base_cell.as_bytes()) >> 1) ^ (seed >> 1)) & 1 == 0 { "localhost" } else { "127.0.0.1" };
                                 if let Some(o) = only.as_ref() {
                                     if o.starts_with(&format!("{base_cell}/")) {
@@ -112,7 +112,9 @@ pub fn run(args: &Args, tier: &str, seed: u64, backend: &str) -> Report {
                                 if reduced && !(matches!(leaf, "valid" | "wronghost" | "expired") && matches!(root, "none" | "pem" | "der") && ignore != Some(false)) {
                                     continue;
                                 }
-                                let should_accept = ignore == Some(true) || ((root == "pem" || root == "der" || root == "pemcrlf" || root == "pemtext") && leaf == "valid") || ((root == "edpem" || root == "edder") && leaf == "valided") || (root == "fullpem" && leaf == "validfull");
+                                // the certificate names the target host: the localhost leaves carry a dNSName only, `validip` an iPAddress only, `wronghost` another name
+                                let name_matches = match leaf { "wronghost" => false, "validip" => host == "127.0.0.1", _ => host == "localhost" };
+                                let should_accept = ignore == Some(true) || (name_matches && (((root == "pem" || root == "der" || root == "pemcrlf" || root == "pemtext") && (leaf == "valid" || leaf == "validip")) || ((root == "edpem" || root == "edder") && leaf == "valided") || (root == "fullpem" && leaf == "validfull")));
                                 let resp = response.clone();
                                 srv.on(&id, Arc::new(move |_r: &Req| Plan::ok(resp.clone())));
                                 let events_before = srv.log.lock().unwrap().len();
@@ -286,9 +288,9 @@ pub fn run(args: &Args, tier: &str, seed: u64, backend: &str) -> Report {
         }
     }
     rep.extra.insert("tls_backend_of_this_build".into(), J::Str(backend.to_string()));
-    rep.rule = format!("Complete matrix for the {backend} build: {{blocking, async}} x ignore_tls_errors {{unset, false, true}} x extra root {{none, correct CA as PEM, as DER, unrelated CA, second (tiny Ed25519, DER < 256 bytes and ending in a 0x0a octet) CA as PEM, as DER, correct CA as PEM with CRLF line endings and a leading comment line, correct CA as PEM behind its `openssl x509 -text` dump, third CA as PEM whose base64 body consists of full 64-character lines only (DER length 48k-2..48k)}} x server certificate {{valid for localhost, wrong host name, expired, self-signed, signed by an unknown CA, valid under the second CA, expired less than a minute before the run, valid under the third CA}} = 432 cells per TLS backend build, the target written ipps:// or https:// (quick: one spelling per cell chosen by cell hash and seed; thorough: both, and its host written as the name `localhost` or as the IP literal 127.0.0.1 - the leaves issued for localhost carry both a dNSName and an iPAddress SAN, the wrong-host leaf matches neither; one host spelling per cell by another hash bit; x {{1.2+1.3, 1.2-only, 1.3-only}} peers), against a loopback rustls peer with freshly generated CAs. Oracle: accept <=> ignore == true or the supplied root (PEM or DER) is the one the valid leaf chains to; in every rejected cell the peer application must have received zero decrypted bytes. Plus client-reuse sequences: one client object sends to a valid server, the peer closes the connection after its answer, the server is then restarted with another certificate (same port, new TLS configuration: earlier sessions cannot be resumed) for an expired / wrong-host / valid one, and the same client sends again - refused, refused, accepted. Four builds are run and merged by the driver: both clients on native-tls, both on rustls (full matrix each), and the two mixed builds - blocking native-tls + async rustls, blocking rustls + async native-tls - with the full matrix in thorough and a 36-cell sub-matrix ({{valid, wrong host, expired}} x {{no root, PEM, DER}} x {{unset, true}} x 2 clients) in quick.");
+    rep.rule = format!("Complete matrix for the {backend} build: {{blocking, async}} x ignore_tls_errors {{unset, false, true}} x extra root {{none, correct CA as PEM, as DER, unrelated CA, second (tiny Ed25519, DER < 256 bytes and ending in a 0x0a octet) CA as PEM, as DER, correct CA as PEM with CRLF line endings and a leading comment line, correct CA as PEM behind its `openssl x509 -text` dump, third CA as PEM whose base64 body consists of full 64-character lines only (DER length 48k-2..48k)}} x server certificate {{valid for localhost, wrong host name, expired, self-signed, signed by an unknown CA, valid under the second CA, expired less than a minute before the run, valid under the third CA}} = 486 cells per TLS backend build (with the IP-only leaf), the target written ipps:// or https:// (quick: one spelling per cell chosen by cell hash and seed; thorough: both, and its host written as the name `localhost` or as the IP literal 127.0.0.1 - the leaves issued for localhost carry a dNSName only, a ninth leaf `validip` an iPAddress SAN only, the wrong-host leaf matches neither: a certificate is valid for the host only under the spelling it names; one host spelling per cell by another hash bit; x {{1.2+1.3, 1.2-only, 1.3-only}} peers), against a loopback rustls peer with freshly generated CAs. Oracle: accept <=> ignore == true or the supplied root (PEM or DER) is the one the valid leaf chains to; in every rejected cell the peer application must have received zero decrypted bytes. Plus client-reuse sequences: one client object sends to a valid server, the peer closes the connection after its answer, the server is then restarted with another certificate (same port, new TLS configuration: earlier sessions cannot be resumed) for an expired / wrong-host / valid one, and the same client sends again - refused, refused, accepted. Four builds are run and merged by the driver: both clients on native-tls, both on rustls (full matrix each), and the two mixed builds - blocking native-tls + async rustls, blocking rustls + async native-tls - with the full matrix in thorough and a 36-cell sub-matrix ({{valid, wrong host, expired}} x {{no root, PEM, DER}} x {{unset, true}} x 2 clients) in quick.");
     if only.is_none() {
-        let want = if reduced { 36 } else { 432 * version_sets.len() * if tier == "thorough" { 2 } else { 1 } };
+        let want = if reduced { 36 } else { 486 * version_sets.len() * if tier == "thorough" { 2 } else { 1 } };
         rep.require(rep.evaluations as usize >= want, "all cells of the matrix executed");
     }
     rep.assumptions.push("trust decisions are those of OpenSSL / rustls as shipped in this image; system roots do not vouch for the freshly generated CAs".into());
